@@ -104,14 +104,14 @@ type Params<D> = KMeansValidParams<f64, Xoshiro256Plus, D>;
 /// the plain distance otherwise); `matrix_dist` is the distance of the metric applied to the whole
 /// centroid matrix (`Distance::distance` on 2-d views), which is the shift compared with the
 /// tolerance: Frobenius norm / sum of all |differences| / largest |difference|.
-#[derive(Clone, Copy, PartialEq)]
-enum Metric {
+#[derive(Clone, Copy, PartialEq, Debug)]
+pub(crate) enum Metric {
     L2,
     L1,
     LInf,
 }
 
-fn metric_of(s: &str) -> Metric {
+pub(crate) fn metric_of(s: &str) -> Metric {
     match s {
         "L2" => Metric::L2,
         "L1" => Metric::L1,
@@ -120,7 +120,7 @@ fn metric_of(s: &str) -> Metric {
     }
 }
 
-fn rdist(m: Metric, a: &[f64], b: &[f64]) -> f64 {
+pub(crate) fn rdist(m: Metric, a: &[f64], b: &[f64]) -> f64 {
     match m {
         Metric::L2 => a.iter().zip(b).map(|(x, y)| (x - y) * (x - y)).sum(),
         Metric::L1 => a.iter().zip(b).map(|(x, y)| (x - y).abs()).sum(),
@@ -128,7 +128,7 @@ fn rdist(m: Metric, a: &[f64], b: &[f64]) -> f64 {
     }
 }
 
-fn matrix_dist(m: Metric, a: &[Vec<f64>], b: &[Vec<f64>]) -> f64 {
+pub(crate) fn matrix_dist(m: Metric, a: &[Vec<f64>], b: &[Vec<f64>]) -> f64 {
     let fa: Vec<f64> = a.iter().flatten().cloned().collect();
     let fb: Vec<f64> = b.iter().flatten().cloned().collect();
     match m {
@@ -138,9 +138,9 @@ fn matrix_dist(m: Metric, a: &[Vec<f64>], b: &[Vec<f64>]) -> f64 {
 }
 
 #[derive(Clone, Debug, PartialEq)]
-struct KState {
-    c: Vec<Vec<f64>>,
-    cnt: Vec<f64>,
+pub(crate) struct KState {
+    pub c: Vec<Vec<f64>>,
+    pub cnt: Vec<f64>,
 }
 
 fn params<D: Distance<f64>>(case: &KmCase, tol: f64, dist_fn: D) -> Params<D> {
@@ -179,21 +179,21 @@ fn canon(s: &KState) -> Vec<u8> {
 
 
 /// One candidate outcome of the reference step.
-struct RefOut {
-    st: KState,
-    shift: f64,
-    inertia: f64,
+pub(crate) struct RefOut {
+    pub st: KState,
+    pub shift: f64,
+    pub inertia: f64,
     /// every operation that produced the new centroids and the shift was exact (all operands
     /// small dyadic rationals, every division and the square root exact): `shift` IS the real
     /// number, so `shift < tolerance` can be judged exactly, even at equality
-    exact: bool,
+    pub exact: bool,
 }
 
 /// Own recurrence: assign every row of the batch to its nearest centroid of the PREVIOUS state
 /// (all assignments first), then in row order `count[c] += 1; c += (x - c) / count[c]`.
 /// Equidistant centroids (within 1e-12 relative) make the assignment a choice: every combination
 /// of admissible choices is returned (None when there are more than TIE_COMBO_CAP combinations).
-fn ref_step(metric: Metric, prev: &KState, batch: &[Vec<f64>]) -> Option<(Vec<RefOut>, bool)> {
+pub(crate) fn ref_step(metric: Metric, prev: &KState, batch: &[Vec<f64>]) -> Option<(Vec<RefOut>, bool)> {
     let k = prev.c.len();
     let mut tie_sets: Vec<Vec<usize>> = Vec::new();
     let mut inertia = 0.0;
